@@ -30,7 +30,7 @@ from ..core import Ctx, load_corpus
 
 ID = "C19"
 LEVEL = "proof"
-STRENGTH = "partial"   # several clauses hold only under named guards (open findings F3, F5, F6, F7, F8, F9, F10), see LEVEL_TEXT
+STRENGTH = "partial"   # several clauses hold only under named guards (open findings F3, F5, F6, F7, F8), see LEVEL_TEXT
 ENGINES = ["lean-model", "kopfsim", "pyextract"]
 TIE = ("S: real infinite_watch vs the Lean world machine, act by act, on seeded fault scripts; D: what the real namespace observer "
        "was fed (listing, listed items, events) and insights.namespaces after each item vs the Lean `evView`; A': the real orchestrator's "
@@ -38,8 +38,15 @@ TIE = ("S: real infinite_watch vs the Lean world machine, act by act, on seeded 
        "task done-callbacks) replayed by the Lean LTS: every label enabled, same keys after each pass; "
        "A: real adjust_tasks vs the Lean ensemble on insight histories; T: AST check that orchestrator() awaits adjust_tasks "
        "inside `async with insights.revised` (re-proved equal to the model's locked variant) and that the operator's pause toggles are "
-       "handed over orchestrator → Ensemble → queueing.watcher → infinite_watch (Tie.pause_wired); D': every item fed to the real "
-       "revise_namespaces path (with its Terminating reading: live / blocked / finishing) vs the Lean `reviseNs`; whole-operator runs, incl. "
+       "handed over orchestrator → Ensemble → queueing.watcher → infinite_watch (Tie.pause_wired), and that revise_resources builds "
+       "patched_selectors from the spawning and changing registries and hands it to _disable_unsuitable_resources (Tie.patch_kinds_eq); "
+       "D': every item fed to the real revise_namespaces path in the operator runs (with its Terminating reading and an independent "
+       "matcher's verdict on the name) vs the Lean `reviseNs`; D'': the real revise_namespaces called directly on generated listings and "
+       "event sequences (all body shapes, DELETED events with conditions, pre-filled insights) vs `reviseAll`, and the real "
+       "revise_resources called directly over a real registry (handlers of all 8 kinds through kopf's decorators; selectors by "
+       "(group, version, plural) / bare name / category / EVERYTHING; verbs varied) with _disable_unsuitable_resources wrapped: what it "
+       "was handed and what it left vs the Lean `servedOf patchKinds` (the real Selector.check verdicts are fed: `check` is not modelled); "
+       "whole-operator runs, incl. "
        "rapid namespace/CRD changes during a suspended pass, the operator paused and resumed, Terminating namespaces, other handler kinds, "
        "verbs, restricted observation, checked by the oracle")
 LEVEL_TEXT = (
@@ -56,9 +63,17 @@ LEVEL_TEXT = (
     "listed items): PARTIAL insights_follow_cluster_partial (guard AllDelivered: every change since the observer's own listing went "
     "through the stream as an event; listed_namespace_ignored_witness = open C19-F8); the out-of-order application of events of two "
     "incarnations of one namespace (open C19-F7) and the CRD half of the insights are covered by the oracle only. revise_namespaces with Terminating "
-    "namespaces (deletionTimestamp + status.conditions), for ALL item sequences: terminating_namespace_stays_served (a served namespace stays served "
-    "while every item about it says it exists), namespace_gone_unserved; the full 'every existing matching namespace is served' is false: "
-    "terminating_at_first_sight_unserved_witness = open C19-F9. The operator's pause reaches every resource watch-stream: wired_stream_is_the_stream "
+    "namespaces (deletionTimestamp + status.conditions), for ALL item sequences from ANY earlier contents of the insights: served_iff_last_word "
+    "(a matching namespace is served iff the last item about it — not counting DELETED events that still carry a True condition, which the "
+    "code only logs — says that it exists: the served set is a function of what exists, not of the order in which it was seen), "
+    "existing_namespace_served, served_independent_of_history, unmatched_never_added, terminating_namespace_stays_served, "
+    "namespace_gone_unserved; old_revise_unserved_at_first_sight_regression = the loop before kopf 40faad4 (C19-F9, fixed). Which of the "
+    "selected resources are served (_disable_unsuitable_resources over Selector.select with its core-group priority, split per handler kind), "
+    "for ALL sets of resources and handlers: served_resources_iff (exact), readonly_event_only_served (a read-only resource whose accepting "
+    "handlers are on.event/index only is served whatever the other resources and handlers are), patchable_served, unsuitable_not_served; "
+    "PARTIAL served_independent_of_other_resources_partial (guard: no core-group resource is watchable but not patchable — true of every "
+    "Kubernetes; core_priority_residue_witness: the guard is needed, an observation about Selector.select, not reachable on a real cluster); "
+    "old_disable_depends_on_others_regression = the function before kopf bde2793 (C19-F10, fixed). The operator's pause reaches every resource watch-stream: wired_stream_is_the_stream "
     "(+ Tie.pause_wired: the three hand-overs of operator_paused, read off the AST), unwired_stream_lists_while_paused_witness. For ALL histories of insight revisions and watcher deaths: adjust_keys, watchers_nodup, kept_tasks_kept, "
     "served_pairs_have_live_watcher; PARTIAL: exactly_one_watch_partial (guards: fixed mode — cluster-wide incl. the empty start-up "
     "revisions, or namespaced —, stable scope, and in namespaced mode a namespace served or no cluster-scoped resource; "
@@ -76,7 +91,11 @@ THEOREMS = [("Kopf.Props.C19", "Kopf.C19." + n) for n in [
     # cluster → insights (namespaces)
     "insights_follow_cluster_partial", "listed_namespace_ignored_witness",
     # revise_namespaces: Terminating namespaces
-    "terminating_namespace_stays_served", "namespace_gone_unserved", "terminating_at_first_sight_unserved_witness",
+    "served_iff_last_word", "existing_namespace_served", "served_independent_of_history", "unmatched_never_added",
+    "terminating_namespace_stays_served", "namespace_gone_unserved", "old_revise_unserved_at_first_sight_regression",
+    # _disable_unsuitable_resources: which of the selected resources are served
+    "served_resources_iff", "readonly_event_only_served", "patchable_served", "unsuitable_not_served",
+    "served_independent_of_other_resources_partial", "core_priority_residue_witness", "old_disable_depends_on_others_regression",
     # the operator's pause reaches every resource watch-stream
     "wired_stream_is_the_stream", "unwired_stream_lists_while_paused_witness",
     # adjust_tasks over histories of revisions and task deaths
@@ -85,7 +104,8 @@ THEOREMS = [("Kopf.Props.C19", "Kopf.C19." + n) for n in [
     # the orchestrator around insights.revised, all interleavings
     "pass_progress", "no_lost_wakeup", "exactly_one_watch_async_partial", "served_pairs_live_async_partial",
     "death_while_idle_witness", "unlocked_pass_loses_wakeup_witness"]]
-TIE_THEOREMS = [("Kopf.Tie.C19", "Kopf.C19.Tie.pass_under_lock"), ("Kopf.Tie.C19", "Kopf.C19.Tie.pause_wired")]
+TIE_THEOREMS = [("Kopf.Tie.C19", "Kopf.C19.Tie.pass_under_lock"), ("Kopf.Tie.C19", "Kopf.C19.Tie.pause_wired"),
+                ("Kopf.Tie.C19", "Kopf.C19.Tie.patch_kinds_eq")]
 RULE = ("stream scripts: first resourceVersion just below 10/100/1000 in 35 % of the scripts (the versions change their digit count "
         "after a few events), 0-2 pre-existing objects, cluster-wide or namespaced watch, 3-10 moments at dyadic times, each a "
         "cluster of 1-3 ops in random order from {create/edit/delete/other-resource write, break eof/conn/410/error/garbage, "
@@ -99,7 +119,13 @@ RULE = ("stream scripts: first resourceVersion just below 10/100/1000 in 35 % of
         "short name; 'pause' runs (the whole operator paused and resumed while objects / namespaces / CRDs change, checkpoints inside the pause), 'nsterm' "
         "runs (namespaces Terminating with mixed conditions, then finished; some Terminating at start-up), 'restricted' runs (403 on the namespace listing or "
         "watch, scanning disabled; exact names among the patterns), 'kinds' runs (daemons, timers, indices, create/update/delete/resume handlers, alone or "
-        "beside on.event; verbs without patch / watch / list); namespace patterns drawn from 10 sets (globs, lists, negations, re-inclusion); a case is distinct by its abstracted (act, outputs) sequence and non-trivial when a fault, a pause "
+        "beside on.event; verbs without patch / watch / list); pure cases: revise_namespaces over a listing of 0-7 namespaces (bodies live / marked without "
+        "conditions / Terminating with mixed conditions / Terminating with all conditions False / conditions without a mark) and 0-9 events, 15 % "
+        "from pre-filled insights, 12 % with DELETED events that still carry a True condition (off contract: tie only); revise_resources over 1-6 of "
+        "10 resources (two versions of one CRD, same plural in the core and in another group, events, a non-watchable core resource; verbs full / "
+        "read-only / everything but patch / no watch / no list / get only / patch without watch) and 1-5 handlers of 8 kinds with selectors by (group, version, plural), "
+        "bare name (plural / kind / singular / short name), category, EVERYTHING; 8 % with a read-only core resource (off contract: tie only); "
+        "namespace patterns drawn from 10 sets (globs, lists, negations, re-inclusion); a case is distinct by its abstracted (act, outputs) sequence and non-trivial when a fault, a pause "
         "or a removal occurs")
 TRUSTED = ["harness/sim fake API (list/watch/replay/410 semantics, fault injection) and virtual-time loop",
            "harness/props/sim_c19.py observation points (api.request wrapper, watching.asyncio proxy, FakeContent.iter_chunked wrapper, ToggleSet subclass)",
@@ -116,14 +142,19 @@ ASSUMPTIONS = ["resource versions are modelled as naturals (Kubernetes: opaque s
                "operator_paused ToggleSet (captured at orchestrator(); the documented 'pause button'), not through peering (C13's subject); the pause of one "
                "stream at every position is exercised on infinite_watch directly (tie S); the meta-watchers (namespaces/CRDs) run with operator_paused=None "
                "and do list and watch while paused, by design",
-               "the cluster→insights map is modelled for namespaces only (Model/C19_Insights: listed items ignored, events applied; reviseNs: the "
-               "Terminating reading of a body) and tied by the observer-feed comparisons; namespace pattern matching (globs, comma lists, negations, "
-               "re-inclusion; an independent matcher in the oracle), the CRD/resource half (revise_resources, API-group re-scans, ambiguity filter, verbs "
-               "per handler kind: daemons/timers/changing handlers need `patch`, on.event/index do not), the restricted modes (HTTP 403 on the namespace "
+               "the cluster→insights map is modelled for namespaces (Model/C19_Insights: listed items ignored, events applied; reviseNs: the "
+               "Terminating reading of a body, the patterns' verdict as an input) and tied by the observer-feed comparisons and the direct calls; of the "
+               "CRD/resource half only the last step is modelled (Model/C19_Resources: _disable_unsuitable_resources over Selector.select, verbs per "
+               "handler kind: daemons/timers/changing handlers need `patch`, on.event/index do not; Selector.check is an input); namespace pattern "
+               "matching (globs, comma lists, negations, re-inclusion; an independent matcher in the oracle), the rest of revise_resources "
+               "(_update_resources per API group, API-group re-scans, ambiguity filter), the restricted modes (HTTP 403 on the namespace "
                "listing / watch, settings.scanning.disabled) and the cross-uid ordering of namespace events (C19-F7) are unmodelled: oracle only",
                "a Terminating namespace follows the Kubernetes namespace controller: deletionTimestamp + five conditions (content / finalizers remaining = "
                "True while blocked), all False before the object is removed; a DELETED event whose last body still carries a True condition (the code "
-               "would keep serving that namespace: `deleted and blockers`) is outside this contract and not generated",
+               "would keep serving that namespace: `deleted and blockers`, log only) is outside this contract: generated in the direct calls of "
+               "revise_namespaces for the tie (the model has it: `NsEv.mute`, and served_iff_last_word says exactly what it does), skipped by the oracle",
+               "no core-group (v1) resource can be listed and watched but not patched (true of every Kubernetes core API): with one, Selector.select's "
+               "core priority leaks into the patch check (core_priority_residue_witness; corpus/C19/pure.json case -614): generated for the tie, skipped by the oracle",
                "HTTP chunk framing: the fake sends exactly one complete JSON line per chunk (api.iter_jsonlines' re-assembly of split / merged lines is "
                "exercised by kopf's own tests/apis/test_iterjsonlines.py only)",
                "an ERROR event without `code` raises KeyError (not WatchingError), HTTP 410 on a LIST is swallowed like an escalated 429: both generated and "
@@ -179,8 +210,30 @@ def extract(ctx: Ctx) -> None:
     w1 = handed_over(fn, "Ensemble", "operator_paused", "operator_paused", "orchestrator()")
     w2 = handed_over(spawn, "queueing.watcher", "operator_paused", "ensemble.operator_paused", "spawn_missing_watchers()")
     w3 = handed_over(qwatcher, "watching.infinite_watch", "operator_paused", "operator_paused", "queueing.watcher()")
+    # which registries make up `patched_selectors`, and that it is what `_disable_unsuitable_resources` gets (Model/C19_Resources.lean)
+    otree = pyextract.parse_file(ctx.repo / "kopf/_core/reactor/observation.py")
+    rr = pyextract.find_def(otree, "revise_resources")
+    assigns = [n for n in ast.walk(rr) if isinstance(n, ast.Assign) and len(n.targets) == 1
+               and isinstance(n.targets[0], ast.Name) and n.targets[0].id == "patched_selectors"]
+    if len(assigns) != 1:
+        raise ExtractError(f"revise_resources(): expected one assignment of `patched_selectors`, found {len(assigns)}")
+
+    def union_terms(node: ast.AST) -> list[str]:
+        if isinstance(node, ast.BinOp) and isinstance(node.op, ast.BitOr):
+            return union_terms(node.left) + union_terms(node.right)
+        return [pyextract.norm(node)]
+    terms = union_terms(assigns[0].value)
+    known_terms = {f"registry._{k}.get_all_selectors()": k for k in ("indexing", "watching", "spawning", "changing")}
+    if not terms or any(t not in known_terms for t in terms):
+        raise ExtractError(f"revise_resources(): `patched_selectors` is not a union of registry._<kind>.get_all_selectors(): {terms}")
+    pk = {known_terms[t] for t in terms}
+    calls = [n for n in ast.walk(rr) if isinstance(n, ast.Call) and pyextract.norm(n.func) == "_disable_unsuitable_resources"]
+    if len(calls) != 1 or calls[0].args or any(k.arg is None for k in calls[0].keywords):
+        raise ExtractError("revise_resources(): expected exactly one keyword-only call of `_disable_unsuitable_resources(...)`")
+    kws = {k.arg: pyextract.norm(k.value) for k in calls[0].keywords}
+    gets_patched = kws.get("selectors") == "patched_selectors" and kws.get("resources") == "insights.watched_resources"
     b = lambda x: "true" if x else "false"  # noqa: E731
-    out = pyextract.HEADER.format(src="kopf/_core/reactor/orchestration.py")
+    out = pyextract.HEADER.format(src="kopf/_core/reactor/orchestration.py, queueing.py, observation.py")
     out += "namespace Kopf.C19.Extracted\n\n"
     out += "/-- `await adjust_tasks(...)` sits inside the `async with insights.revised` block of `orchestrator()` -/\n"
     out += f"def lockedPass : Bool := {b(locked)}\n\n"
@@ -189,7 +242,12 @@ def extract(ctx: Ctx) -> None:
     out += "/-- `spawn_missing_watchers()` calls `queueing.watcher(operator_paused=ensemble.operator_paused)` -/\n"
     out += f"def watcherGetsToggles : Bool := {b(w2)}\n\n"
     out += "/-- `queueing.watcher()` calls `watching.infinite_watch(operator_paused=operator_paused)` (kopf/_core/reactor/queueing.py) -/\n"
-    out += f"def streamGetsToggles : Bool := {b(w3)}\n\nend Kopf.C19.Extracted\n"
+    out += f"def streamGetsToggles : Bool := {b(w3)}\n\n"
+    out += "/-- `revise_resources()`: `patched_selectors` is the union of these registries' selectors (kopf/_core/reactor/observation.py) -/\n"
+    for k in ("indexing", "watching", "spawning", "changing"):
+        out += f"def patched{k.capitalize()} : Bool := {b(k in pk)}\n"
+    out += "\n/-- `revise_resources()` calls `_disable_unsuitable_resources(resources=insights.watched_resources, selectors=patched_selectors)` -/\n"
+    out += f"def unsuitableGetsPatched : Bool := {b(gets_patched)}\n\nend Kopf.C19.Extracted\n"
     leanio.write_generated("Kopf/Extracted/C19.lean", out)
 
 
@@ -1406,7 +1464,7 @@ def eval_operator(sc: dict) -> dict:
     churn = [o[1] for o in sc["timeline"] if o[1] in ("add_ns", "del_ns", "add_res", "del_res", "add_version", "del_version",
                                                        "set_preferred", "set_categories", "set_shortnames",
                                                        "term_ns", "fin_ns", "pause", "resume")]
-    nsreq = nsimpl = None
+    nsreq = nsimpl = nsimpl2 = None
     feed = r.get("ns_feed") or []
     nsreq2 = None
     if feed and feed[0]["kind"] == "listing0" and not sc.get("clusterwide", True):
@@ -1415,25 +1473,31 @@ def eval_operator(sc: dict) -> dict:
         kid = lambda n: ids.setdefault(n, len(ids) + 1)  # noqa: E731
         marks0 = feed[0].get("marks") or ["live"] * len(feed[0]["names"])
         base = [kid(n) for n, m in zip(feed[0]["names"], marks0) if ok(n) and m == "live"]
-        base2 = [[kid(n), m] for n, m in zip(feed[0]["names"], marks0) if ok(n)]
+        base2 = [[kid(n), m, ok(n)] for n, m in zip(feed[0]["names"], marks0)]
         evs, evs2, impl = [], [], []
+        impl2 = [sorted(kid(n) for n in feed[0]["after"])]
         for f in feed[1:]:
-            if f["kind"] != "event" or not ok(f["name"]):
+            if f["kind"] != "event":
+                continue
+            # the revise model gets EVERY item with the patterns' verdict (an independent matcher's) on its name
+            evs2.append([f["type"], kid(f["name"]), f.get("mark", "live"), ok(f["name"])])
+            impl2.append(sorted(kid(n) for n in f["after"]))
+            if not ok(f["name"]):
                 continue
             evs.append([f["type"], kid(f["name"])])
-            evs2.append([f["type"], kid(f["name"]), f.get("mark", "live")])
             impl.append(sorted(kid(n) for n in f["after"]))
-        all_live = all(m == "live" for _k, m in base2) and all(e[2] == "live" for e in evs2)
+        all_live = all(m == "live" for _k, m, o in base2 if o) and all(e[2] == "live" for e in evs2 if e[3])
         # the events-only view (`evView`, what insights_follow_cluster_partial is about) knows live namespaces only;
         # the revise_namespaces model (`reviseNs`: Terminating / blocked / finishing) is tied on every feed
         nsreq = ["C19.nsfold", base, evs, sorted(ids.values())] if all_live else None
-        nsreq2 = ["C19.nsrevise", base2, evs2, sorted(ids.values())]
+        nsreq2 = ["C19.nsrevise", [], base2, evs2]
         nsimpl = impl
+        nsimpl2 = impl2
         # what the property wants after the observer's own listing: every matching namespace that exists — a Terminating
         # one with content remaining exists (one with nothing remaining is as good as gone)
         want0 = sorted(kid(n) for n, m in zip(feed[0]["names"], marks0) if ok(n) and m != "finishing")
         got0 = sorted(kid(n) for n in feed[0]["after"])
-        if got0 != want0 and got0 == sorted(base) and any(m == "blocked" for _k, m in base2):
+        if got0 != want0 and got0 == sorted(base) and any(m == "blocked" and o for _k, m, o in base2):
             fails.append(("the observer's own listing showed a matching namespace that is Terminating with content/finalizers "
                           "remaining: it was not taken into the insights", F9_SIG))
         elif got0 != want0:
@@ -1459,11 +1523,219 @@ def eval_operator(sc: dict) -> dict:
     orchreq = ["C19.orch", [l[:1] if l[0] == "spawnAll" else l for l in trace]] if trace else None
     orchimpl = [l[1] for l in trace if l[0] == "spawnAll"]
     return {"sc": sc, "fails": fails, "churn": churn, "checkpoints": len(r["checkpoints"]), "nsreq": nsreq, "nsimpl": nsimpl,
-            "nsreq2": nsreq2, "pauses": len(r.get("pauses") or []),
+            "nsreq2": nsreq2, "nsimpl2": nsimpl2, "pauses": len(r.get("pauses") or []),
             "orchreq": orchreq, "orchimpl": orchimpl,
             "watch_requests": len(r["watch_requests"]), "calls": len(r["calls"]),
             "shape": [[c["watches"], c["resources"], c["namespaces"]] for c in r["checkpoints"]],
             "detail": r if fails else None}
+
+
+# =============================================================================================
+# Pure cases: the two synchronous functions that decide WHAT is served, called directly
+#   purens  — observation.revise_namespaces over a listing and a sequence of raw events
+#   pureres — observation.revise_resources (→ _disable_unsuitable_resources) over discovered resources and a registry
+# =============================================================================================
+NS_NAMES = ["team-a", "team-b", "team-c", "team-b2", "other", "default", "ns"]
+NS_SHAPES = ["live", "marked", "blocked", "finishing", "odd"]
+# how `revise_namespaces` is documented to read a body (is_deleted / get_blockers): marked for deletion AND conditions present
+MARK_OF_SHAPE = {"live": "live", "marked": "live", "odd": "odd", "blocked": "blocked", "finishing": "finishing"}
+GENERIC_NS_SIG = {"site": "observation.revise_namespaces", "shape": "insights.namespaces != the existing matching namespaces"}
+GENERIC_RES_SIG = {"site": "observation._disable_unsuitable_resources", "shape": "served resources != the suitable watched resources"}
+
+
+def gen_pure_ns(rng: random.Random, seed: int) -> dict:
+    patterns = rng.choice(PATTERN_SETS)
+    shape = lambda: rng.choices(NS_SHAPES, weights=[45, 8, 30, 12, 5])[0]  # noqa: E731
+    listing = [[n, shape()] for n in NS_NAMES if rng.random() < 0.45]
+    rng.shuffle(listing)
+    offcontract = rng.random() < 0.12
+    events = []
+    for _ in range(rng.choice([0, 1, 2, 3, 4, 6, 9])):
+        typ = rng.choices(["ADDED", "MODIFIED", "DELETED"], weights=[3, 5, 3])[0]
+        if typ == "DELETED":
+            sh = rng.choices(["finishing", "live", "marked", "blocked", "odd"], weights=[6, 2, 1, 3 if offcontract else 0, 1 if offcontract else 0])[0]
+        else:
+            sh = shape()
+        events.append([typ, rng.choice(NS_NAMES), sh])
+    served0 = [n for n in NS_NAMES if ns_matches(n, patterns) and rng.random() < 0.5] if rng.random() < 0.15 else []
+    return {"seed": seed, "patterns": patterns, "listing": listing, "events": events, "served0": served0}
+
+
+def oracle_pure_ns(case: dict, r: dict) -> list[tuple[str, dict]]:
+    """After the listing and after every event: every EXISTING namespace that matches a pattern is served, and nothing else.
+    A namespace exists when the latest item about it is not a DELETED event and does not show it Terminating with nothing
+    remaining (all conditions False: the object is about to go). Names whose latest item is a DELETED event that still
+    carries a True condition are skipped (outside the namespace controller's contract, see ASSUMPTIONS)."""
+    fails: list[tuple[str, dict]] = []
+    word: dict[str, tuple] = {}
+    for n, sh in case["listing"]:
+        word[n] = (None, sh)
+    steps = [("the observer's listing", None, r["after0"])] + [(f"event #{i} {e}", e, a) for i, (e, a) in enumerate(zip(case["events"], r["after"]))]
+    for label, ev, got in steps:
+        if ev is not None:
+            typ, n, sh = ev
+            if not (typ == "DELETED" and sh in ("blocked", "odd")):     # a DELETED that still shows a True condition says nothing
+                word[n] = (typ, sh)
+        for n in sorted(set(NS_NAMES) | set(got)):
+            if ev is not None and ev[1] == n and ev[0] == "DELETED" and ev[2] in ("blocked", "odd"):
+                continue
+            if n in word:
+                typ, sh = word[n]
+                want = ns_matches(n, case["patterns"]) and typ != "DELETED" and sh != "finishing"
+            else:
+                want = n in case.get("served0", [])
+            if want != (n in got):
+                if want and n in word and word[n][1] == "blocked":
+                    fails.append((f"after {label}: namespace {n} exists (Terminating, content/finalizers remaining), matches {case['patterns']}, "
+                                  f"and is not in insights.namespaces {got}", F9_SIG))
+                else:
+                    fails.append((f"after {label}: namespace {n} {'exists and matches' if want else 'does not exist or does not match'} "
+                                  f"{case['patterns']} but insights.namespaces is {got}", GENERIC_NS_SIG))
+                return fails
+    return fails
+
+
+def eval_pure_ns(case: dict) -> dict:
+    from . import sim_c19
+    try:
+        r = sim_c19.run_pure_ns(case)
+    except Exception as e:  # noqa: BLE001 — the observer would die of it
+        return {"fails": [(f"revise_namespaces raised {type(e).__name__}: {e}",
+                           {"site": "observation.revise_namespaces", "shape": "exception out of revise_namespaces"})],
+                "req": None, "impl": None, "shape": ["raised", type(e).__name__], "hist": {}, "first_sight_blocked": False, "mute": False,
+                "nontrivial": True}
+    fails = oracle_pure_ns(case, r)
+    ids: dict[str, int] = {}
+    kid = lambda n: ids.setdefault(n, len(ids) + 1)  # noqa: E731
+    ok = lambda n: ns_matches(n, case["patterns"])  # noqa: E731
+    req = ["C19.nsrevise", sorted(kid(n) for n in case.get("served0", [])),
+           [[kid(n), MARK_OF_SHAPE[sh], ok(n)] for n, sh in case["listing"]],
+           [[typ, kid(n), MARK_OF_SHAPE[sh], ok(n)] for typ, n, sh in case["events"]]]
+    impl = [sorted(kid(n) for n in r["after0"])] + [sorted(kid(n) for n in a) for a in r["after"]]
+    items = [(None, n, sh) for n, sh in case["listing"]] + [tuple(e) for e in case["events"]]
+    return {"fails": fails, "req": req, "impl": impl, "shape": [req[1:], impl],
+            "hist": {("DELETED" if t == "DELETED" else "listed" if t is None else "event") + ":" + sh: 1 for t, _n, sh in items},
+            "first_sight_blocked": any(sh == "blocked" and t != "DELETED" and n not in case.get("served0", []) and
+                                       not any(x[1] == n for x in items[:i]) for i, (t, n, sh) in enumerate(items)),
+            "mute": any(t == "DELETED" and sh in ("blocked", "odd") for t, _n, sh in items),
+            "nontrivial": any(sh != "live" or t == "DELETED" for t, _n, sh in items)}
+
+
+FULL_VERBS = ["create", "delete", "get", "list", "patch", "update", "watch"]
+RES_POOL = [
+    {"group": "kopf.dev", "version": "v1", "plural": "kopfexamples", "kind": "KopfExample", "shortcuts": ["kex"], "categories": ["all", "kopf"]},
+    {"group": "kopf.dev", "version": "v1beta1", "plural": "kopfexamples", "kind": "KopfExample", "shortcuts": ["kex"], "categories": ["all", "kopf"], "preferred": False},
+    {"group": "kopf.dev", "version": "v1", "plural": "clusterthings", "kind": "ClusterThing", "categories": ["kopf"]},
+    {"group": "example.org", "version": "v1", "plural": "widgets", "kind": "Widget", "categories": ["all"]},
+    {"group": "example.org", "version": "v1", "plural": "gadgets", "kind": "Gadget", "shortcuts": ["gd"]},
+    {"group": "metrics.k8s.io", "version": "v1beta1", "plural": "pods", "kind": "PodMetrics"},
+    {"group": "", "version": "v1", "plural": "pods", "kind": "Pod", "shortcuts": ["po"], "categories": ["all"]},
+    {"group": "", "version": "v1", "plural": "configmaps", "kind": "ConfigMap", "shortcuts": ["cm"]},
+    {"group": "", "version": "v1", "plural": "events", "kind": "Event", "shortcuts": ["ev"]},
+    {"group": "", "version": "v1", "plural": "componentstatuses", "kind": "ComponentStatus", "shortcuts": ["cs"]},
+]
+HANDLER_KINDS = ["event", "index", "daemon", "timer", "create", "update", "delete", "resume"]
+KIND_CLASS = {"event": "watching", "index": "indexing", "daemon": "spawning", "timer": "spawning",
+              "create": "changing", "update": "changing", "delete": "changing", "resume": "changing"}
+
+
+def gen_pure_res(rng: random.Random, seed: int) -> dict:
+    offcontract = rng.random() < 0.08        # a core-group resource that can be watched but not patched: no Kubernetes has one
+    resources = []
+    for b in rng.sample(RES_POOL, rng.choice([1, 2, 3, 3, 4, 5, 6])):
+        core = b["group"] == ""
+        kind = rng.choices(["full", "readonly", "update-nopatch", "nowatch", "nolist", "getonly", "patch-nowatch"], weights=[38, 30, 10, 7, 5, 4, 6])[0]
+        if b["plural"] == "componentstatuses":
+            kind = "nowatch"
+        if core and kind in ("readonly", "update-nopatch") and not offcontract:
+            kind = "full"
+        verbs = {"full": FULL_VERBS, "readonly": ["get", "list", "watch"], "update-nopatch": ["create", "delete", "get", "list", "update", "watch"], "nowatch": ["get", "list"], "nolist": ["get", "watch", "patch"],
+                 "getonly": ["get"], "patch-nowatch": ["get", "list", "patch", "update"]}[kind]
+        resources.append({**b, "verbs": verbs})
+    handlers = []
+    for _ in range(rng.choice([1, 1, 2, 2, 3, 4, 5])):
+        hk = rng.choices(HANDLER_KINDS, weights=[30, 10, 12, 8, 10, 14, 8, 8])[0]
+        b = rng.choice(resources if rng.random() < 0.85 else RES_POOL)
+        by = rng.choices(["full", "name", "category", "everything"], weights=[55, 22, 15, 8])[0]
+        if by == "full":
+            sel = {"by": "full", "group": b["group"], "version": b["version"], "plural": b["plural"]}
+        elif by == "name":
+            sel = {"by": "name", "value": rng.choice([b["plural"], b["kind"], b["kind"].lower(), *b.get("shortcuts", [])])}
+        elif by == "category":
+            sel = {"by": "category", "value": rng.choice(["all", "kopf", "none"])}
+        else:
+            sel = {"by": "everything"}
+        handlers.append({"kind": hk, "sel": sel})
+    return {"seed": seed, "resources": resources, "handlers": handlers}
+
+
+def _accepts(sel: dict, r: dict) -> bool:
+    """kopf's documented selector rules, written down independently: an exact (group, version, plural); a bare name = plural /
+    kind / singular / a short name, a category, or EVERYTHING (but events) — these three in the preferred version only."""
+    if sel["by"] == "full":
+        return (sel["group"], sel["version"], sel["plural"]) == (r["group"], r["version"], r["plural"])
+    if not r.get("preferred", True):
+        return False
+    if sel["by"] == "name":
+        return sel["value"] in (r["plural"], r["kind"], r["kind"].lower(), *r.get("shortcuts", []))
+    if sel["by"] == "category":
+        return sel["value"] in r.get("categories", [])
+    return not (r["plural"] == "events" and r["group"] in ("", "events.k8s.io"))
+
+
+def oracle_pure_res(case: dict, r: dict) -> list[tuple[str, dict]]:
+    """Of the watched resources exactly those stay served that can be listed and watched and — if a handler that stores its
+    state on the object (daemon, timer, on.create/update/delete/resume) accepts them — patched; whatever the OTHER
+    resources and their handlers are. Skipped when a core-group resource is watchable but not patchable (no Kubernetes
+    core API has one; `Selector.select`'s core priority then leaks into the patch check: core_priority_residue_witness)."""
+    by_id = {(x["group"], x["version"], x["plural"]): x for x in case["resources"]}
+    before = [by_id[tuple(i)] for i in r["before"]]
+    if any(x["group"] == "" and "list" in x["verbs"] and "watch" in x["verbs"] and "patch" not in x["verbs"] for x in before):
+        return []
+    patching = [h["sel"] for h in case["handlers"] if KIND_CLASS[h["kind"]] in ("spawning", "changing")]
+    want = sorted([x["group"], x["version"], x["plural"]] for x in before
+                  if "list" in x["verbs"] and "watch" in x["verbs"]
+                  and ("patch" in x["verbs"] or not any(_accepts(s, x) for s in patching)))
+    got = sorted(r["after"])
+    if got == want:
+        return []
+    missing = [by_id[tuple(i)] for i in want if i not in got]
+    if missing and not [i for i in got if i not in want] and all("patch" not in x["verbs"] for x in missing):
+        return [(f"{[x['plural'] + '.' + x['group'] for x in missing]} can be listed and watched, no daemon/timer/changing handler selects them, "
+                 f"and they are not served: served {got}, suitable {want}", F10_SIG)]
+    return [(f"served resources {got} != the suitable ones among the watched {want}", GENERIC_RES_SIG)]
+
+
+def eval_pure_res(case: dict) -> dict:
+    from . import sim_c19
+    try:
+        r = sim_c19.run_pure_res(case)
+    except Exception as e:  # noqa: BLE001 — the observer would die of it
+        return {"fails": [(f"revise_resources raised {type(e).__name__}: {e}",
+                           {"site": "observation.revise_resources", "shape": "exception out of revise_resources"})],
+                "req": None, "impl": None, "passed_ok": True, "shape": ["raised", type(e).__name__], "hist": {}, "offcontract": False,
+                "nontrivial": True}
+    fails = oracle_pure_res(case, r)
+    by_id = {(x["group"], x["version"], x["plural"]): x for x in case["resources"]}
+    order = sorted(by_id)
+    num = {k: i + 1 for i, k in enumerate(order)}
+    before = [tuple(i) for i in r["before"]]
+    rs = [[num[k], k[0] == "", "list" in by_id[k]["verbs"], "watch" in by_id[k]["verbs"], "patch" in by_id[k]["verbs"]] for k in before]
+    hs = [[KIND_CLASS[h["kind"]], sp, sorted(num[tuple(i)] for i in chk if tuple(i) in before)]
+          for h, sp, chk in zip(case["handlers"], r["specific"], r["checks"])]
+    # the registries that reached the call are the patching ones (read off the call itself, beside the AST tie)
+    passed_ok = all(p == (KIND_CLASS[h["kind"]] in ("spawning", "changing")) or
+                    any(h2["sel"] == h["sel"] and KIND_CLASS[h2["kind"]] in ("spawning", "changing") for h2 in case["handlers"])
+                    for h, p in zip(case["handlers"], r["passed"]))
+    impl = sorted(num[tuple(i)] for i in r["after"])
+    dropped = [k for k in before if list(k) not in r["after"]]
+    ro = [k for k in before if "patch" not in by_id[k]["verbs"] and "list" in by_id[k]["verbs"] and "watch" in by_id[k]["verbs"]]
+    return {"fails": fails, "req": ["C19.served", rs, hs], "impl": impl, "passed_ok": passed_ok, "shape": [rs, hs, impl],
+            "hist": {"watched": len(before), "dropped": len(dropped), "read-only watched": len(ro),
+                     "read-only served": len([k for k in ro if list(k) in r["after"]]),
+                     "read-only dropped": len([k for k in ro if list(k) not in r["after"]])},
+            "offcontract": any(k[0] == "" for k in ro),
+            "nontrivial": bool(dropped) or bool(ro)}
 
 
 # =============================================================================================
@@ -1476,6 +1748,10 @@ def _work(item: tuple) -> dict:
             out = eval_stream(case)
         elif kind == "adjust":
             out = eval_adjust(case)
+        elif kind == "purens":
+            out = eval_pure_ns(case)
+        elif kind == "pureres":
+            out = eval_pure_res(case)
         else:
             out = eval_operator(case)
     except Exception as e:  # noqa: BLE001
@@ -1542,6 +1818,34 @@ def absorb(ctx: Ctx, res: dict, source: str, pending: dict) -> None:
         pending["reqs"].append(["C19.adjust", res["req"]])
         pending["impl"].append({"rows": [sorted(([k, n] for k, n in row), key=lambda x: (x[0][0], str(x[0][1]))) for row in res["impl"]]})
         pending["where"].append({"kind": kind, "case": case})
+    elif kind == "purens":
+        ctx.case(key=json.dumps(res["shape"]), nontrivial=res["nontrivial"],
+                 sample={"case": case, "insights.namespaces": res["impl"]} if res["nontrivial"] else None)
+        for k, v in res["hist"].items():
+            ctx.count("pure_ns_items", k, v)
+        ctx.count("pure_ns", "a namespace Terminating with content remaining at first sight" if res["first_sight_blocked"] else "other")
+        if res["mute"]:
+            ctx.count("pure_ns", "with a DELETED event that still carries a True condition (off contract: tie only)")
+        if res["req"] is not None:
+            pending["reqs"].append(res["req"])
+            pending["impl"].append({"after": res["impl"]})
+            pending["where"].append({"kind": kind, "case": case})
+    elif kind == "pureres":
+        ctx.case(key=json.dumps(res["shape"]), nontrivial=res["nontrivial"],
+                 sample={"case": case, "served": res["impl"]} if res["nontrivial"] else None)
+        for k, v in res["hist"].items():
+            ctx.count("pure_res", k, v)
+        for h in case["handlers"]:
+            ctx.count("pure_res_handlers", h["kind"] + " by " + h["sel"]["by"])
+        if res["offcontract"]:
+            ctx.count("pure_res", "cases with a read-only core-group resource (off contract: tie only)")
+        if not res["passed_ok"]:
+            ctx.tie_fail("the selectors handed to _disable_unsuitable_resources are not those of the daemons/timers/changing handlers",
+                         {"kind": kind, "case": case})
+        if res["req"] is not None:
+            pending["reqs"].append(res["req"])
+            pending["impl"].append({"served": res["impl"]})
+            pending["where"].append({"kind": kind, "case": case})
     else:
         ctx.case(key=json.dumps(res["shape"]), nontrivial=bool(res["churn"]),
                  sample={"scenario": case, "checkpoints": res["shape"]} if res["churn"] else None)
@@ -1571,10 +1875,10 @@ def absorb(ctx: Ctx, res: dict, source: str, pending: dict) -> None:
             ctx.count("insights_tie", "fed items", len(res["nsimpl"]))
         if res.get("nsreq2") is not None:
             pending["reqs"].append(res["nsreq2"])
-            pending["impl"].append({"after": res["nsimpl"]})
+            pending["impl"].append({"after": res["nsimpl2"]})
             pending["where"].append({"kind": kind, "case": case})
-            ctx.count("insights_tie", "fed items (revise model, with Terminating marks)", len(res["nsimpl"]))
-            for e in res["nsreq2"][2]:
+            ctx.count("insights_tie", "fed items (revise model, with Terminating marks)", len(res["nsimpl2"]))
+            for e in res["nsreq2"][3]:
                 ctx.count("insights_marks", e[2])
         ctx.count("operator_runs", "checkpoints", res["checkpoints"])
         ctx.count("operator_runs", "watch_requests", res["watch_requests"])
@@ -1602,6 +1906,8 @@ def compare_with_model(ctx: Ctx, pending: dict) -> None:
             ctx.compare("C19 namespace insights (observer feed → insights.namespaces)", impl, {"after": out[1]}, wh)
         elif req[0] == "C19.nsrevise":
             ctx.compare("C19 namespace insights (revise_namespaces with Terminating namespaces)", impl, {"after": out[1]}, wh)
+        elif req[0] == "C19.served":
+            ctx.compare("C19 served resources (revise_resources → _disable_unsuitable_resources)", impl, {"served": out[1]}, wh)
         elif req[0] == "C19.run":
             model = {"outs": [_canon_outs(o) for o in out[1]["outs"]], "failed": out[1]["phase"] == "failed"}
             ctx.compare("C19 watch-stream (acts → requests/yields)", impl, model, wh)
@@ -1652,6 +1958,15 @@ def run(ctx: Ctx) -> None:
             items.append(("operator", gen(rng, base + i)))
             sources.append("generated")
         ctx.count("cases", "operator-" + tag, n)
+    n_pns, n_pres = ctx.budget(1500, 30000), ctx.budget(1500, 30000)
+    for i in range(n_pns):
+        items.append(("purens", gen_pure_ns(rng, base + i)))
+        sources.append("generated")
+    for i in range(n_pres):
+        items.append(("pureres", gen_pure_res(rng, base + i)))
+        sources.append("generated")
+    ctx.count("cases", "pure revise_namespaces", n_pns)
+    ctx.count("cases", "pure revise_resources", n_pres)
     ctx.count("cases", "stream", n_stream)
     ctx.count("cases", "adjust", n_adjust)
     ctx.count("cases", "operator", n_oper)
@@ -1677,10 +1992,13 @@ def search(ctx: Ctx, broken: list) -> None:
         items.append(("stream", gen_script(rng, 7_000_000 + i)))
     for i in range(ctx.budget(2000, 20000)):
         items.append(("adjust", gen_history(rng, 7_000_000 + i)))
+    for i in range(ctx.budget(6000, 60000)):
+        items.append(("purens", gen_pure_ns(rng, 7_000_000 + i)))
+        items.append(("pureres", gen_pure_res(rng, 7_000_000 + i)))
     for gen in (gen_pauseop, gen_nsterm, gen_restricted, gen_kinds, gen_operator):
         for i in range(ctx.budget(100, 1000)):
             items.append(("operator", gen(rng, 7_000_000 + i)))
-    open_sigs = [F3_SIG, F5_SIG, F6_SIG, F7_SIG, F8_SIG, F9_SIG, F10_SIG]
+    open_sigs = [F3_SIG, F5_SIG, F6_SIG, F7_SIG, F8_SIG]
     for res in _run_items(items, jobs):
         for what, sig in res.get("fails", []):
             if sig not in open_sigs:
